@@ -44,28 +44,33 @@ type pool struct {
 func (p *pool) Acquire(ctx context.Context) (v wire) {
 	p.cond.L.Lock()
 
-	// Set up ctx handling when waiting for an available connection
-	if len(p.list) == 0 && p.size == p.cap && !p.down && ctx.Err() == nil && ctx.Done() != nil {
-		poolCtx, cancel := context.WithCancelCause(ctx)
-		defer cancel(errAcquireComplete)
-
-		go func() {
-			<-poolCtx.Done()
-			if context.Cause(poolCtx) != errAcquireComplete { // no need to broadcast if the poolCtx is cancelled explicitly.
-				p.cond.Broadcast()
-			}
-		}()
-	}
-
+	watching := false
 retry:
 	for len(p.list) == 0 && p.size == p.cap && !p.down && ctx.Err() == nil {
+		// Set up ctx handling before the first wait for an available connection
+		if !watching && ctx.Done() != nil {
+			watching = true
+			poolCtx, cancel := context.WithCancelCause(ctx)
+			defer cancel(errAcquireComplete)
+
+			go func() {
+				<-poolCtx.Done()
+				if context.Cause(poolCtx) != errAcquireComplete { // no need to broadcast if the poolCtx is cancelled explicitly.
+					// take the lock so that the broadcast cannot fall between the waiter's
+					// ctx.Err() check and its cond.Wait()
+					p.cond.L.Lock()
+					p.cond.Broadcast()
+					p.cond.L.Unlock()
+				}
+			}()
+		}
 		p.cond.Wait()
 	}
 
 	if ctx.Err() != nil {
 		deadPipe := deadFn()
 		deadPipe.error.Store(&errs{error: ctx.Err()})
-		v = deadPipe
+		v = placeholder{deadPipe}
 		p.cond.L.Unlock()
 		return v
 	}
@@ -103,7 +108,14 @@ retry:
 	return v
 }
 
+// placeholder is the closed wire Acquire hands out when the context is already done.
+// It does not occupy a slot of the pool, so Store must not account for it.
+type placeholder struct{ *pipe }
+
 func (p *pool) Store(v wire) {
+	if _, ok := v.(placeholder); ok {
+		return
+	}
 	p.cond.L.Lock()
 	if !p.down && v.Error() == nil {
 		p.list = append(p.list, v)
